@@ -358,6 +358,30 @@ def outMainCfg (c : MainCfg) : String :=
     outBool c.sel.hidden, outBool c.sel.only, outBool c.sel.lookup, outList outNum c.sel.severities,
     outBool c.allowPlugins, outBool c.hex, outBool c.rev, outOpt outText c.ext]
 
+/-- `caches`: why an import fails, one look-up, a table in canonical form (sorted by module name, first pair of a name) -/
+def pFault : P Fault := do
+  let k ← pWord
+  match k with
+  | "notfound" => pure .notFound
+  | "importerror" => pure .importError
+  | "other" => pure .other
+  | _ => failure
+def pLookup : P Lookup := do
+  let k ← pWord
+  match k with
+  | "ud" => do let n ← pText; pure (.ud n)
+  | "src" => do let n ← pText; pure (.src n)
+  | "callout" => do let n ← pText; pure (.callout n)
+  | "osrc" => do let n ← pText; pure (.osrc n)
+  | "compid" => pure .compId
+  | _ => failure
+def insertKey {α} (p : Text × α) : List (Text × α) → List (Text × α)
+  | [] => [p]
+  | q :: r => if p.1 = q.1 then q :: r else if textLt q.1 p.1 then q :: insertKey p r else p :: q :: r
+def canonTable {α} (c : List (Text × α)) : List (Text × α) := c.reverse.foldl (fun acc p => insertKey p (acc.filter (fun q => q.1 != p.1))) []
+def outCache {β} (c : Cache β) : String :=
+  outList (fun p => outText p.1 ++ " " ++ (if p.2.isSome then "1" else "0")) (canonTable c)
+
 def handle (op : String) : P String :=
   match op with
   | "ping" => pure "ok pong"
@@ -429,7 +453,53 @@ def handle (op : String) : P String :=
       pure ("ok " ++ outAction act ++ " " ++ outMainCfg cfg ++ " " ++ outNum (mainExit act) ++ " " ++ outOpt outText (mainStderr act)
         ++ " " ++ outList (fun c => outText c.1 ++ " " ++ outText c.2.1 ++ " " ++ outBool c.2.2) (jsonCalls cfg walk act)
         ++ " " ++ outOpt outText (act.afterPrint printed))
+  | "caches" => do
+      -- the import system: ud / src / callout behaviours (everything else: absent), why absent SRC / callout modules fail
+      -- (everything else: not found), the configuration directory in listing order (or none); then the ORDERED look-ups.
+      -- Reply: userDataParsers, srcParsers, calloutParsers, osrcParsers (name, 0 = None | 1 = module), attempted flag, componentIDs
+      let uds ← pList (do let n ← pText; let b ← pUdPlugin; pure (n, b))
+      let srcs ← pList (do let n ← pText; let b ← pSrcPlugin; pure (n, b))
+      let srcFaults ← pList (do let n ← pText; let f ← pFault; pure (n, f))
+      let cos ← pList (do let n ← pText; let b ← pCalloutPlugin; pure (n, b))
+      let coFaults ← pList (do let n ← pText; let f ← pFault; pure (n, f))
+      let dir ← pOpt (pList (do let f ← pText; let m ← pList pTT; pure (f, m)))
+      let ls ← pList pLookup
+      pEnd
+      let env : ProcEnv :=
+        { T := liveTables [], ud := lookupFn uds .absent,
+          src := { callout := lookupFn cos .absent, src := lookupFn srcs .absent }, allowPlugins := true,
+          srcFault := lookupFn srcFaults .notFound, calloutFault := lookupFn coFaults .notFound, confDir := dir }
+      let c := stepCaches env {} ls
+      pure ("ok " ++ outCache c.ud ++ " " ++ outCache c.src ++ " " ++ outCache c.callout ++ " " ++ outCache c.osrc ++ " " ++
+        outBool c.comp.attempted ++ " " ++
+        outList (fun p => outText p.1 ++ " " ++ outList (fun kv => outText kv.1 ++ " " ++ outText kv.2) p.2) (canonTable c.comp.table))
   | _ => pure ("err unknown-op " ++ op)
+
+/-! ### the whole command (`PelModel/Top.lean`): `runmain <Args tokens> <world tokens>` -/
+
+def pFileEntry : P FileEntry := do let name ← pText; let data ← pBytes; pure { name, data }
+
+/-- world tokens: pathIsDir, top-level files (name bytes)* in walk order, subdirectory names, -f content?, exclude text?, -o files? -/
+def pWorld : P World := do
+  let pathIsDir ← pBool; let dir ← pList pFileEntry; let subdirs ← pList pText
+  let file ← pOpt pBytes; let exclude ← pOpt pText; let out ← pOpt (pList pFileEntry)
+  pure { pathIsDir, dir, subdirs, file, exclude, out }
+
+def outDirFiles (d : Dir) : String := outList (fun f => outText f.name ++ " " ++ outBytes f.data) d
+
+def outWorld (w : World) : String :=
+  " ".intercalate [outBool w.pathIsDir, outDirFiles w.dir, outList outText w.subdirs, outOpt outBytes w.file,
+    outOpt outText w.exclude, outOpt outDirFiles w.out]
+
+/-- requests that need the decoder environment of the driver state and the `Args` parser -/
+def handleTop (st : DrvState) (op : String) : P String :=
+  match op with
+  | "runmain" => do
+      let a ← pArgs; let w ← pWorld; pEnd
+      let r := runMain st.env a w
+      pure ("ok " ++ outText r.stdout ++ " " ++ outNum r.diagnostics ++ " " ++ outOpt outText r.message ++ " " ++ outNum r.exit
+        ++ " " ++ outWorld r.world)
+  | _ => failure
 
 def handleLine (st : DrvState) (line : String) : DrvState × String :=
   match tokenize line with
@@ -437,6 +507,9 @@ def handleLine (st : DrvState) (line : String) : DrvState × String :=
     match (handleSt st op).run rest with
     | some ((st', r), _) => (st', r)
     | none =>
+      match (handleTop st op).run rest with
+      | some (r, _) => (st, r)
+      | none =>
       match (handle op).run rest with
       | some (r, _) => (st, r)
       | none => (st, "err bad-request")
